@@ -6,10 +6,12 @@ package main
 
 import (
 	"fmt"
+	"math/big"
 	"sort"
 	"strconv"
 
 	sdk "github.com/cosmos/cosmos-sdk/types"
+	banktypes "github.com/cosmos/cosmos-sdk/x/bank/types"
 
 	"github.com/comdex-official/comdex/app/wasm/bindings"
 	assettypes "github.com/comdex-official/comdex/x/asset/types"
@@ -417,6 +419,63 @@ func auxGens() []OpGen {
 				args["lot"] = []sdk.Int{unit.QuoRaw(1000), unit.QuoRaw(100), unit.QuoRaw(20), unit.QuoRaw(4)}[r.Intn(4)].String()
 			}
 			return &Event{Kind: "admin", Tag: "col.set_lsr", Admin: "aux.update_lookup", Actor: w.Cdp.Admin, Args: args}
+		}},
+		// savings squeeze: the lockers' accrued savings outgrow the fees the app has on record while the collector account
+		// itself can still pay (somebody sent it coins), then governance changes the rate (which settles every locker)
+		{"col.savings_squeeze", 2, func(w *World, r *Rng) *Event {
+			ap := auxP(w)
+			if ap == nil {
+				return nil
+			}
+			ctx := w.Ctx()
+			cur, found := w.App.CollectorKeeper.GetCollectorLookupTable(ctx, w.Cdp.AppID, w.Cdp.Debt.ID)
+			if !found {
+				return nil
+			}
+			var biggest sdk.Int
+			for _, l := range w.App.LockerKeeper.GetLockers(ctx) {
+				if l.AppId == w.Cdp.AppID && l.AssetDepositId == w.Cdp.Debt.ID && (biggest.IsNil() || l.NetBalance.GT(biggest)) {
+					biggest = l.NetBalance
+				}
+			}
+			if biggest.IsNil() || biggest.LT(sdk.NewInt(1000)) {
+				return nil
+			}
+			fees := sdk.ZeroInt()
+			if nf, ok := w.App.CollectorKeeper.GetNetFeeCollectedData(ctx, w.Cdp.AppID, w.Cdp.Debt.ID); ok {
+				fees = nf.NetFeesCollected
+			}
+			a := w.cdpUser(r)
+			bal := w.Bal(a.Addr, w.Cdp.Debt.Denom)
+			if bal.LT(sdk.NewInt(100)) {
+				return nil
+			}
+			gift := bal.MulRaw(r.Range(10, 90)).QuoRaw(100)
+			mkArgs := func(lsr string) map[string]string {
+				return map[string]string{"lsr": lsr, "debt_threshold": cur.DebtThreshold.String(), "surplus_threshold": cur.SurplusThreshold.String(),
+					"lot": cur.LotSize.String(), "debt_lot": cur.DebtLotSize.String(), "bid_factor": cur.BidFactor.String()}
+			}
+			rate := []string{"0.2", "1", "5"}[r.Intn(3)]
+			rf, _ := strconv.ParseFloat(rate, 64)
+			// time after which the biggest locker has earned about (recorded fees + part of the gift)
+			want := new(big.Float).SetInt(fees.Add(gift.MulRaw(r.Range(5, 80)).QuoRaw(100)).BigInt())
+			per, _ := new(big.Float).Quo(want, new(big.Float).SetInt(biggest.BigInt())).Float64()
+			secs := int64(per / rf * 31557600)
+			if secs < 3600 {
+				secs = 3600
+			}
+			if secs > 20*31557600 {
+				secs = 20 * 31557600
+			}
+			first := w.TxEvent("env.unsolicited", a, banktypes.NewMsgSend(a.Addr, w.ModAddr("collectorV1"), sdk.NewCoins(sdk.NewCoin(w.Cdp.Debt.Denom, gift))))
+			first.Fault = "env.unsolicited"
+			first.then = []*Event{
+				{Kind: "admin", Tag: "col.set_lsr", Admin: "aux.update_lookup", Actor: w.Cdp.Admin, Args: mkArgs(rate)},
+				{Kind: "block", Tag: "env.timejump", GapS: secs, N: 1, Fault: "clock.gap"},
+				{Kind: "admin", Tag: "col.set_lsr", Admin: "aux.update_lookup", Actor: w.Cdp.Admin, Args: mkArgs([]string{"0", "0.02", "0.5"}[r.Intn(3)])},
+			}
+			w.Stats.Probe("aux.gen.savings_squeeze")
+			return first
 		}},
 		{"col.set_mapping", 1, func(w *World, r *Rng) *Event {
 			ap := auxP(w)
